@@ -25,6 +25,7 @@ Inductive val :=
 | VPyRes (pid : Z) (args : list val)
 | VKRes (kid : Z) (args : list val)
 | VPyObj (pid : Z)                (* a Python function object used as a value *)
+| VSym (s : Z)                    (* a symbol; the name it denotes is s (names and symbols share one space) *)
 | VKlong.                         (* the interpreter object handed to a `klong` parameter *)
 
 Inductive pname := PX | PY | PZ | PKlong | POther.
@@ -35,7 +36,8 @@ Definition pname_eqb (a b : pname) : bool :=
   | _, _ => false
   end.
 
-Record pyc := mkPyc { pid : Z; params : list pname }.     (* a Python callable and its signature *)
+(* a Python callable: identity, signature, and the oracle telling for which received arguments it raises *)
+Record pyc := mkPyc { pid : Z; params : list pname; praises : list val -> bool }.
 Record kfn := mkKfn { kid : Z; karity : nat }.            (* a Klong function {..} *)
 
 (* a parameter as inspect.signature shows it (for _handle_import) *)
@@ -60,7 +62,8 @@ Inductive entry :=
 (* facts read from the source by the translator *)
 Record flags := mkFlags {
   args_positional : bool;  (* KGLambda.args = the first n of x,y,z (n = declared names among x,y,z) *)
-  setitem_wraps : bool     (* KlongContext.__setitem__ wraps callables for existing names too *)
+  setitem_wraps : bool;    (* KlongContext.__setitem__ wraps callables for existing names too *)
+  pop_finally : bool       (* _eval_fn pops the call frame in a `finally` *)
 }.
 
 (* names: 0,1,2 are the reserved x,y,z *)
@@ -176,7 +179,9 @@ Definition lam_call (fl : flags) (st : state) (c : pyc) : state * res :=
   | Some pos =>
       match bind_params (params c) ((if provide_klong c then [VKlong] else []) ++ pos) with
       | None => (st, RErr)
-      | Some logged => (mkState (scx st) (log st ++ [(pid c, logged)]), RVal (VPyRes (pid c) logged))
+      | Some logged =>
+          (mkState (scx st) (log st ++ [(pid c, logged)]),
+           if praises c logged then RErr else RVal (VPyRes (pid c) logged))
       end
   end.
 
@@ -186,11 +191,34 @@ Fixpoint zip_frame (names : list Z) (args : list val) : frame :=
   | _, _ => []
   end.
 
+(* _eval_fn builds the frame with self.call(q) for every argument q: an argument that is a
+   symbol is evaluated AGAIN as a variable (bound to data: that data; to a callable: the
+   function object; unbound: the symbol itself) *)
+Definition reval (c : ctx) (v : val) : val :=
+  match v with
+  | VSym s =>
+      match c_lookup c s with
+      | Some (EData d) => d
+      | Some (EPy p) | Some (ERaw p) => VPyObj (pid p)
+      | _ => v
+      end
+  | _ => v
+  end.
+
+Definition call_frame (c : ctx) (args : list val) : frame := zip_frame xyz (map (reval c) args).
+
+(* after the call: the frame is popped; on an exception only if the pop sits in a `finally` *)
+Definition after_call (fl : flags) (st : state) (pushed_frame : frame) (st' : state) (r : res) : state * res :=
+  match r with
+  | RErr => (mkState (if pop_finally fl then scx st else pushed_frame :: scx st) (log st'), r)
+  | _ => (mkState (scx st) (log st'), r)
+  end.
+
 (* _eval_fn with f a KGLambda: ctx = {x,y,z: args}; push; call; pop (finally) *)
 Definition call_lambda (fl : flags) (st : state) (c : pyc) (args : list val) : state * res :=
-  let pushed := mkState (zip_frame xyz args :: scx st) (log st) in
-  let '(st', r) := lam_call fl pushed c in
-  (mkState (scx st) (log st'), r).
+  let fr := call_frame (scx st) args in
+  let '(st', r) := lam_call fl (mkState (fr :: scx st) (log st)) c in
+  after_call fl st fr st' r.
 
 (* ---------------------------------------------------------------- imported callables *)
 (* wildcard mode of _get_pos_args: x, y, z in turn through the WHOLE scope stack, stopping at the first miss *)
@@ -219,7 +247,7 @@ Definition accepts (real : list iparam) (k : nat) : bool :=
 
 (* _eval_fn + KGLambda.__call__ for a KGLambda registered by an import *)
 Definition call_item (st : state) (it : item) (n : nat) (k w : bool) (args : list val) : state * res :=
-  let pushed := zip_frame xyz args :: scx st in
+  let pushed := call_frame (scx st) args :: scx st in
   match (if w then Some (get_pos_wild pushed xyz) else get_pos_args pushed (firstn n xyz)) with
   | None => (st, RErr)
   | Some pos =>
@@ -232,14 +260,13 @@ Definition call_item (st : state) (it : item) (n : nat) (k w : bool) (args : lis
 Definition apply_name (fl : flags) (st : state) (n : Z) (args : list val) : state * res :=
   match c_lookup (scx st) n with
   | Some (EPy c) =>
-      match args with
-      | [] => call_lambda fl st c []                       (* nested _eval_fn of the KGCall, empty frames *)
-      | _ => if (length args <? lam_arity fl c)%nat then (st, RUnapplied) else call_lambda fl st c args
-      end
+      (* fewer arguments than the arity (none included): the call object comes back unevaluated; a zero-argument
+         application of an arity-0 callable re-enters _eval_fn with empty frames and calls it *)
+      if (length args <? lam_arity fl c)%nat then (st, RUnapplied) else call_lambda fl st c args
   | Some (ERaw c) => (st, RVal (VPyObj (pid c)))           (* eval of a non-Klong object returns it *)
   | Some (EKfn k) =>
       if (length args <? karity k)%nat then (st, RUnapplied)
-      else (st, RVal (VKRes (kid k) (firstn (karity k) args)))
+      else (st, RVal (VKRes (kid k) (firstn (karity k) (map (reval (scx st)) args))))
   | Some (ELam it n k w) => call_item st it n k w args      (* f is a KGLambda, f_arity is the call's own: always called *)
   | Some (EData _) => (st, RBad)
   | None => (st, RBad)
@@ -375,7 +402,7 @@ Definition read_name (st : state) (n : Z) : readback :=
 (* klong.call(KGCall(fn.a, args, arity)) for a captured / current function, after the arity check *)
 Definition call_entry (fl : flags) (st : state) (e : entry) (args : list val) : state * res :=
   match e with
-  | EKfn k => if (length args =? karity k)%nat then (st, RVal (VKRes (kid k) args)) else (st, RErr)
+  | EKfn k => if (length args =? karity k)%nat then (st, RVal (VKRes (kid k) (map (reval (scx st)) args))) else (st, RErr)
   | EPy c => if (length args =? lam_arity fl c)%nat then call_lambda fl st c args else (st, RErr)
   | _ => (st, RBad)
   end.
@@ -393,7 +420,8 @@ Definition call_readback (fl : flags) (st : state) (b : readback) (args : list v
   | BWrapper sym cap => wrapper_call fl st sym cap args
   | BRawCallable c =>
       match bind_params (params c) args with
-      | Some logged => (mkState (scx st) (log st ++ [(pid c, logged)]), RVal (VPyRes (pid c) logged))
+      | Some logged => (mkState (scx st) (log st ++ [(pid c, logged)]),
+                        if praises c logged then RErr else RVal (VPyRes (pid c) logged))
       | None => (st, RErr)
       end
   | _ => (st, RBad)
